@@ -1,0 +1,19 @@
+//go:build !verif
+
+package v2
+
+import "github.com/iotaledger/iota.go/consts"
+
+// Simulation hooks (see simhook_on.go). Without the verif build tag they are empty and inlined away.
+
+const (
+	simCaller  = 0
+	simWatcher = -1
+	simWorker  = 1
+)
+
+func simYield(string, int) {}
+
+func simState(_, _ *[consts.HashTrinarySize]uint, _ uint64) {}
+
+func simWorkerID(*Worker, uint64) int { return 0 }
